@@ -1767,6 +1767,9 @@ def _offset(
                 elif fend_lno > lno:
                     a.end_lineno = fend_lno + dln
                 elif fend_colo < colo:
+                    if recurse:
+                        f._touchall(False, False, True)  # ends before offset point but on the same line, a trailing line comment after it is part of the cached `bloc` of the statements which end here
+
                     break  # SEE WARNING ABOVE!
 
                 elif (
